@@ -76,7 +76,9 @@ def make_spec(st, idx, tier):
            dict(k="crash"),
            dict(A, k="poll", history="fresh_client_after_crash"),
            dict(A, k="poll", history="reused_argument_objects_1", reuse_args=True),
-           dict(A, k="poll", history="reused_argument_objects_2", reuse_args=True)]
+           dict(A, k="poll", history="reused_argument_objects_2", reuse_args=True),
+           dict(A, k="poll", history="live_feed_frame_1", inplace_feed=True),
+           dict(A, k="poll", history="live_feed_frame_2", inplace_feed=True)]
     if chance(rng, 0.5):
         seq.insert(3, dict(k="poll", role="other_args", override=dict(estimands=(["margin"] if profile["pi_method"] == "bootstrap" else ["turnout"]),
                                                                      prediction_intervals=[0.6]), reuse_args=True))
